@@ -17,7 +17,7 @@
    locked deposits and pool creations (monitors mon_C04 / mon_C01x on the implementation).
    Statements only. *)
 From MD.Model Require Import Base Ownable Epoch PoolMath Types PoolManager FarmManager Chain.
-From MD.Proofs Require Import PoolMathProofs BankProofs SwapProofs ChainProofs PmProofs LiquidityProofs PoolCustody PoolCustodyChain NonVacuity SingleSided TxBalances TxExcess.
+From MD.Proofs Require Import PoolMathProofs BankProofs SwapProofs ChainProofs PmProofs LiquidityProofs PoolCustody PoolCustodyChain NonVacuity SingleSided TxBalances TxExcess PmChainProofs ExcessLedger.
 
 Theorem C01_backed_in_every_reachable_world : forall g w0 ops,
   genesis_world g = Ok w0 -> 0 <= amount_of (fm_create_fee (g_fm g)) ->
@@ -163,6 +163,25 @@ Theorem C01_excess_through_a_donation : forall w from amount b',
   forall d, slackP (set_bank w b') d = slackP w d + camt amount d.
 Proof. exact donation_excess. Qed.
 
+(* THE EXCESS CLAUSE OVER HISTORIES of the core pool operations (any number of swaps, routes, withdrawals, unlocked deposits
+   of one or several assets, plain bank sends, block changes, injected faults, rejected operations, in any order, by any
+   users): for every denom that is not an LP denom, the excess after the history is EXACTLY the initial excess plus the
+   ledger — and every ledger entry (ExcessLedger.gift) is either the amount of a plain bank send to the contract or the one
+   indivisible unit of an accepted odd single-asset deposit, zero for every other operation. (good_run: every operation
+   is of these kinds, not signed by the pool manager, does not name the pool manager itself as receiver; the fee collector
+   is not the pool manager itself; LP denoms are canonical — which holds in every reachable world, lp_inv.) *)
+Theorem C01_excess_is_exactly_donations_plus_odd_units : forall ops w d,
+  good_run w ops -> asset_denom d -> slackP (run w ops) d = slackP w d + ledger w ops d.
+Proof. exact excess_ledger. Qed.
+
+Theorem C01_ledger_entries_are_never_negative : forall w o d, covered_op o -> 0 <= gift w o d.
+Proof. exact gift_nonneg. Qed.
+
+(* ... on a concrete history (swap, odd single-asset deposit, donation, route, a rejected swap, withdrawal): the hypotheses
+   hold and the ledger is 1 unit of uusd (the odd deposit), 77 uusdc (the donation), nothing in uom *)
+Theorem C01_ledger_example : ledger_statement.
+Proof. exact ledger_example. Qed.
+
 Print Assumptions C01_backed_in_every_reachable_world.
 Print Assumptions C01_preserved_by_every_operation.
 Print Assumptions C01_preserved_by_every_history.
@@ -179,3 +198,6 @@ Print Assumptions C01_excess_through_a_deposit.
 Print Assumptions C01_excess_through_a_single_asset_deposit.
 Print Assumptions C01_excess_through_a_donation.
 Print Assumptions C01_excess_through_a_route.
+Print Assumptions C01_excess_is_exactly_donations_plus_odd_units.
+Print Assumptions C01_ledger_entries_are_never_negative.
+Print Assumptions C01_ledger_example.
